@@ -253,10 +253,13 @@ pub fn encode_table(rng: &mut Rng, cmp: &CmpKind, es: &[(Vec<u8>, Vec<u8>)], mut
         if mutate && rng.chance(1, 10) {
             // boundary handles: offset + size at the edge of usize
             let a = usize::MAX - rng.below(8);
-            hv = match rng.below(3) {
+            hv = match rng.below(5) {
                 0 => handle(off, a - off),
                 1 => handle(a, 0),
-                _ => handle(a - size, size),
+                2 => handle(a - size, size),
+                // an offset that differs from the real one only above bit 40: anything derived from it and truncated
+                // to 32 bits at ONE of its uses (a filter index, say) looks valid there and is out of range elsewhere
+                _ => handle(off + (rng.range(1, 7) << rng.range(40, 60)), size),
             };
         }
         index.push((sep, hv));
@@ -315,6 +318,20 @@ pub fn encode_table(rng: &mut Rng, cmp: &CmpKind, es: &[(Vec<u8>, Vec<u8>)], mut
     }
     if rng.chance(1, 4) {
         meta.push((b"filter.leveldb.BuiltinBloomFilter".to_vec(), handle(0, 0)));
+    }
+    if !mutate && !matches!(filter, RefFilter::Bloom(..)) && rng.chance(1, 3) {
+        // a filter of ANOTHER policy whose name merely EXTENDS the bloom policy's name (it sorts right where a seek
+        // for "filter.leveldb.BuiltinBloomFilter2" lands): bloom-shaped, all bits clear, so that a reader that attaches
+        // it would report every key of the first 2 KiB as absent
+        let mut fb = vec![0u8; 8];
+        fb.push(6);
+        fb.extend_from_slice(&0u32.to_le_bytes());
+        fb.extend_from_slice(&9u32.to_le_bytes());
+        fb.push(11);
+        let (off, size) = emit(rng, &mut img, &fb, false);
+        let name: &[u8] = if rng.chance(1, 2) { b"filter.leveldb.BuiltinBloomFilter2.blocked" } else { b"filter.leveldb.BuiltinBloomFilter20" };
+        meta.push((name.to_vec(), handle(off, size)));
+        desc.push("extension-named-foreign-filter".into());
     }
     meta.sort();
     if *cmp == CmpKind::Reverse {
